@@ -79,7 +79,88 @@ func numbersTable(options map[string]string) (Table, error) {
 	return t, nil
 }
 
+// eventsTable: an event-time stream. Records (ts, v) with event time ts = 2020-01-01T00:00:00Z + v seconds, v = 0..count-1,
+// and after every `every` records a watermark equal to the last record's event time; nothing ever waits, so whatever
+// sits between the node and the wire sees records and watermarks arrive back to back.
+type eventsImpl struct{ count, every int64 }
+
+var eventsBase = time.Date(2020, 1, 1, 0, 0, 0, 0, time.UTC)
+
+var eventsFields = []physical.SchemaField{{Name: "ts", Type: octosql.Time}, {Name: "v", Type: octosql.Int}}
+
+func (e *eventsImpl) PushDownPredicates(newPredicates, pushedDownPredicates []physical.Expression) (rejected, pushedDown []physical.Expression, changed bool) {
+	return newPredicates, pushedDownPredicates, false
+}
+
+func (e *eventsImpl) Materialize(ctx context.Context, env physical.Environment, schema physical.Schema, pushedDownPredicates []physical.Expression) (execution.Node, error) {
+	proj := make([]int, len(schema.Fields))
+	for k, f := range schema.Fields {
+		proj[k] = -1
+		for j, g := range eventsFields {
+			if g.Name == f.Name {
+				proj[k] = j
+			}
+		}
+		if proj[k] < 0 {
+			return nil, fmt.Errorf("no such column: %s", f.Name)
+		}
+	}
+	return &eventsNode{impl: e, proj: proj}, nil
+}
+
+type eventsNode struct {
+	impl *eventsImpl
+	proj []int
+}
+
+func (n *eventsNode) Run(ctx execution.ExecutionContext, produce execution.ProduceFn, metaSend execution.MetaSendFn) error {
+	pctx := execution.ProduceFromExecutionContext(ctx)
+	for v := int64(0); v < n.impl.count; v++ {
+		ts := eventsBase.Add(time.Duration(v) * time.Second)
+		row := []octosql.Value{octosql.NewTime(ts), octosql.NewInt(v)}
+		out := make([]octosql.Value, len(n.proj))
+		for k, j := range n.proj {
+			out[k] = row[j]
+		}
+		if err := produce(pctx, execution.NewRecord(out, false, ts)); err != nil {
+			return err
+		}
+		if n.impl.every > 0 && (v+1)%n.impl.every == 0 {
+			if err := metaSend(pctx, execution.MetadataMessage{Type: execution.MetadataMessageTypeWatermark, Watermark: ts}); err != nil {
+				return err
+			}
+		}
+	}
+	return nil
+}
+
+func eventsTable(options map[string]string) (*eventsImpl, error) {
+	e := &eventsImpl{count: 10, every: 2}
+	for k, v := range options {
+		n, err := strconv.ParseInt(v, 10, 64)
+		if err != nil {
+			return nil, fmt.Errorf("events: option %s=%q: %w", k, v, err)
+		}
+		switch k {
+		case "count":
+			e.count = n
+		case "every":
+			e.every = n
+		default:
+			return nil, fmt.Errorf("events: unknown option %q", k)
+		}
+	}
+	return e, nil
+}
+
 func (d *database) GetTable(ctx context.Context, name string, options map[string]string) (physical.DatasourceImplementation, physical.Schema, error) {
+	if name == "events" {
+		e, err := eventsTable(options)
+		if err != nil {
+			return nil, physical.Schema{}, err
+		}
+		return e, physical.Schema{Fields: eventsFields, TimeField: 0, NoRetractions: true}, nil
+	}
 	if name == "numbers" {
 		t, err := numbersTable(options)
 		if err != nil {
